@@ -250,7 +250,10 @@ func (d *Decoder) readTypedList(tag byte) (interface{}, error) {
 
 	aryType, ok := d.typMap[listTyp]
 	if !ok {
-		return nil, newCodecError("readTypedList", "can't find list type %s", listTyp)
+		if d.skipping == 0 {
+			return nil, newCodecError("readTypedList", "can't find list type %s", listTyp)
+		}
+		aryType = reflect.TypeOf([]interface{}{}) // the list is read to be dropped
 	}
 
 	if aryType.Kind() != reflect.Slice {
